@@ -140,6 +140,59 @@ fn value_refs() {
     let _ = c.close();
 }
 
+/// C09 (with C02/C08 in destructor terms): a vetoed replacement - and one whose validator panics -
+/// leaves the resident value exactly as it was, for a value type that owns heap memory: it is
+/// still served (reading it must not touch freed memory) and destroyed exactly once when it
+/// finally leaves.  Miri reports a use-after-free or double free by itself.
+fn vetoed_update() {
+    use stretto::UpdateValidator;
+    struct Picky;
+    impl UpdateValidator for Picky {
+        type Value = String;
+        fn should_update(&self, prev: &String, curr: &String) -> bool {
+            if curr.starts_with("panic") {
+                panic!("validator panics on {:?} (resident {:?})", curr, prev);
+            }
+            // reads both values: the resident one must be intact
+            !(curr.starts_with("no") && !prev.is_empty())
+        }
+    }
+    let c: Cache<u64, String, TransparentKeyBuilder<u64>, stretto::DefaultCoster<String>, Picky> = CacheBuilder::new_with_key_builder(64, 1_000_000, TransparentKeyBuilder::default())
+        .set_buffer_size(64)
+        .set_cleanup_duration(HOUR)
+        .set_update_validator(Picky)
+        .finalize()
+        .unwrap();
+    let expect = |c: &Cache<u64, String, TransparentKeyBuilder<u64>, stretto::DefaultCoster<String>, Picky>, what: &str, want: &str| match c.get(&1) {
+        Some(r) if r.value().as_str() == want => {}
+        other => fail("C09", "M-resident-value-changed-by-a-refused-update", format!("{}: get(1) returned {:?}, expected {:?}", what, other.map(|r| r.value().clone()), want)),
+    };
+    assert!(c.insert(1, "first-value-on-the-heap".to_string(), 1));
+    c.wait().unwrap();
+    expect(&c, "after the insert", "first-value-on-the-heap");
+    // vetoed, through both insert spellings
+    let _ = c.insert(1, "no-1".to_string(), 1);
+    let _ = c.insert_if_present(1, "no-2".to_string(), 1);
+    c.wait().unwrap();
+    expect(&c, "after two vetoed replacements", "first-value-on-the-heap");
+    // the validator panics on the caller's thread; the cache stays usable (its locks do not poison)
+    let r = std::panic::catch_unwind(std::panic::AssertUnwindSafe(|| c.insert(1, "panic-1".to_string(), 1)));
+    if r.is_ok() {
+        fail("C09", "M-harness", "the validator did not panic".to_string());
+    }
+    expect(&c, "after a replacement whose validator panicked", "first-value-on-the-heap");
+    // an accepted replacement, then the entry leaves: every value is destroyed exactly once
+    assert!(c.insert(1, "second".to_string(), 1));
+    c.wait().unwrap();
+    expect(&c, "after an accepted replacement", "second");
+    c.remove(&1);
+    c.wait().unwrap();
+    if c.get(&1).is_some() {
+        fail("C09", "M-removed-entry-served", "get(1) after remove".to_string());
+    }
+    let _ = c.close();
+}
+
 /// C17: hits + misses equals the number of lookups, with more threads than metric stripes.
 fn metrics_many_threads() {
     let c: Cache<u64, u64, TransparentKeyBuilder<u64>> = CacheBuilder::new_with_key_builder(64, 1_000_000, TransparentKeyBuilder::default()).set_buffer_size(64).set_metrics(true).set_cleanup_duration(HOUR).finalize().unwrap();
@@ -328,6 +381,7 @@ fn main() {
         "metrics_many_threads" => metrics_many_threads(),
         "capacity_race" => capacity_race(),
         "value_lifecycle" => value_lifecycle(),
+        "vetoed_update" => vetoed_update(),
         "concurrent_removes" => concurrent_removes(),
         other => {
             eprintln!("unknown scenario {:?}", other);
